@@ -347,7 +347,8 @@ def _replace_days(cls, source):
         m = J.methods.get(name)
         if m is None:
             raise AnalysisError(rule, "jalali_parser.%s not found" % name)
-        node = copy.deepcopy(m.node)
+        from ..core.ctx import fresh_copy
+        node = fresh_copy(m.node)
         node.decorator_list = []
         want = ast.parse(src).body[0]
         if name == "_replace_days":
